@@ -223,6 +223,33 @@ def run(ctx):
                 okc = False
                 det = 'newline inside client_info piece %r' % (fm[0],)
         rep.check(r2, okc and len(cf.calls(r'std::io::_print$')) == 1, logger + '::client_info', det or 'one print, no newline', '%s:%d' % (cf.file, cf.line))
+        if 'Console' in logger:
+            # the console line is positional: its columns are the ClientInfo fields in the order of the logfmt keys
+            # (mac src/dst, ip src/dst, transport, port src/dst), each column printing the field it tests
+            r3c = rep.rule('C20-R3c', 'console client_info: seven tab-separated columns printing mac.src, mac.dst, ip.src, ip.dst, transport, port.src, port.dst in that order (the order of the logfmt keys)', floor=1)
+            cols = []
+            for bi, t in cf.calls(r'fmt::Arguments::<.*>::new$'):
+                fm = fmt_of(cf.through_refs(cf.call_expr(bi), bi))
+                if not fm or len(fm[1]) < 2:
+                    continue
+                for a in fm[1]:
+                    paths = set()
+                    for x in walk(a):
+                        if isinstance(x, tuple) and x[0] == 'ref' and isinstance(x[1], tuple) and x[1][0] == 'local':
+                            v_ = peel(cf.read(('local', x[1][1]), (bi, 0)), unwraps=False)
+                            for y in walk(v_):
+                                if isinstance(y, tuple) and y[0] == 'entry':
+                                    e_ = y[1]
+                                    pth = []
+                                    while isinstance(e_, tuple) and e_[0] in ('field', 'variant', 'deref'):
+                                        if e_[0] == 'field' and e_[2] != '0':
+                                            pth.append(e_[2])
+                                        e_ = e_[1]
+                                    if e_ == ('param', 2):
+                                        paths.add('.'.join(reversed(pth)))
+                    cols.append(sorted(paths))
+            want_cols = [['mac.src'], ['mac.dst'], ['ip.src'], ['ip.dst'], ['transport'], ['port.src'], ['port.dst']]
+            rep.check(r3c, cols == want_cols, logger + '::client_info:columns', 'columns print %s' % cols, '%s:%d' % (cf.file, cf.line))
         if 'Logfmt' in logger:
             r3b = rep.rule('C20-R3b', 'logfmt client_info: each key=value label names the ClientInfo field whose value is printed', floor=7)
             for bi, t in cf.calls(r'fmt::Arguments::<.*>::new$'):
@@ -370,6 +397,52 @@ def run(ctx):
 
     # R4: "the addresses and ports printed are those of the frame": ClientInfo is what the loggers print; its only
     # rewrite after parsing (STUN change-port) must belong to an answer, otherwise drop events show a port the frame never had
+    # the configured loggers do receive the events: add() stores the logger in the list that init() and every forwarder iterate,
+    # and both concrete loggers have every layer enabled (their <p>_enabled() is the trait default `true`, or a field that new()
+    # sets to true and nothing else writes)
+    r6 = rep.rule('C20-R6', 'nothing is filtered away: MetaLogger::add pushes its argument into self.loggers; every <proto>_enabled() of ConsoleLogger / LogfmtLogger is true (a constant, or a flag that new() sets to true and no other function writes)', floor=17)
+    ad = F.fn('logger::meta::MetaLogger::add')
+    rep.saw(ad)
+    pushes = [b_ for b_, t_ in ad.calls(r'Vec::<[^>]*>::push$') if 'loggers' in short(ad.argv(b_, 0)) and peel(ad.argv(b_, 1)) == ('param', 2)]
+    reach_ = ad.reachable(0, removed_blocks=pushes)
+    rep.check(r6, bool(pushes) and not any(x in reach_ for x in ad.return_blocks()), 'MetaLogger::add', 'add(log) pushes log into self.loggers on every path: %s' % bool(pushes), '%s:%d' % (ad.file, ad.line))
+    for logger in ('logger::console::ConsoleLogger', 'logger::logfmt::LogfmtLogger'):
+        short_ = logger.split('::')[-1]
+        nw = F.fn(logger + '::new')
+        inits = {}
+        for bi, b in enumerate(nw.blocks):
+            for i, st in enumerate(b['stmts']):
+                if st['rv']['k'] == 'agg' and st['rv'].get('adt') == logger and not b['cleanup']:
+                    names_ = [fl['name'] for fl in F.adts[logger]['variants'][0]['fields']]
+                    v_ = nw._through(nw.rvalue(st['rv'], (bi, i)), (bi, i), 0)
+                    inits = dict(zip(names_, [const_val(x) for x in v_[2]]))
+        other_writers = set()
+        for fid_, g_ in F.fns.items():
+            if fid_ == logger + '::new':
+                continue
+            for (k_, ch_, bi_, l_, ty_, dr_) in field_accesses(g_):
+                if k_ == 'w' and ch_ and ch_[-1][0] == logger:
+                    other_writers.add((fid_, ch_[-1][1]))
+        for proto in ('arp', 'eth', 'ipv4', 'ipv6', 'icmpv4', 'icmpv6', 'tcp', 'udp'):
+            cands = [k for k in F.fns if k.endswith('::%s_enabled' % proto) and short_ in k]
+            if not cands:
+                rep.ok(r6, '%s::%s_enabled' % (short_, proto), 'not overridden: the trait default', '')
+                dflt = F.fn('logger::Logger::%s_enabled' % proto) if ('logger::Logger::%s_enabled' % proto) in F.fns else None
+                if dflt is not None:
+                    rv_ = [const_val(dflt.ret_value(rb_)) for rb_ in dflt.return_blocks()]
+                    rep.check(r6, rv_ == [1], 'Logger::%s_enabled:default' % proto, 'trait default returns %s' % rv_, '%s:%d' % (dflt.file, dflt.line))
+                continue
+            g = F.fn(cands[0])
+            rvs = [peel(g.ret_value(rb_)) for rb_ in g.return_blocks()]
+            ok = False
+            det = 'returns %s' % [short(x) for x in rvs]
+            if rvs and all(const_val(x) == 1 for x in rvs):
+                ok = True
+            elif len(rvs) == 1 and isinstance(rvs[0], tuple) and rvs[0][0] == 'entry':
+                fld = [p_[1] for p_ in Fn.path_of(rvs[0][1]) if p_[0] == 'f']
+                ok = len(fld) == 1 and inits.get(fld[0]) == 1 and not any(w_[1] == fld[0] for w_ in other_writers)
+                det = 'returns self.%s; new() sets it to %s; other writers: %s' % (fld[0] if fld else '?', inits.get(fld[0]) if fld else None, sorted(w_[0] for w_ in other_writers if fld and w_[1] == fld[0]))
+            rep.check(r6, ok, '%s::%s_enabled' % (short_, proto), det, '%s:%d' % (g.file, g.line))
     r4 = rep.rule('C20-R4', 'ClientInfo (the source of every printed address/port) is rewritten by upper layers only on paths that produce a reply', floor=1)
     st = F.fn('proto::stun::repl')
     rep.saw(st)
